@@ -22,12 +22,12 @@ def classify(case_line):
 CFG = dict(
     imports=["From Verif.C42 Require Import Model Spec ModelMg Check3."],
     checker="check_case3",
-    n=dict(quick=100, thorough=3000),
+    n=dict(quick=80, thorough=3000),
     shard=30,
     classify=classify,
     rule="histories of 3-8 Syncer.Apply calls on the real bpf/proxy.Syncer over recording in-memory NAT maps: 1-6 services "
          "(cluster IP, 0-2 external IPs, 0-2 load-balancer IPs, node port on 1-2 node-port addresses incl. the 255.255.255.255 "
-         "meta address, external/internal traffic policy, session affinity, TCP/UDP; a third of the histories with the maglev annotation) with 0-6 endpoints (ready / not ready / "
+         "meta address, external/internal traffic policy, session affinity, natExcludeService annotation, TCP/UDP; a third of the histories with the maglev annotation) with 0-6 endpoints (ready / not ready / "
          "terminating, local or on one of 3 remote nodes); between applies services are added, removed or changed and endpoints "
          "added, removed or change state; an apply may have write failures (a hash predicate on the key, or every write after "
          "the n-th) and may be followed by a restart (new Syncer over the same maps); 4 scripted histories first. "
